@@ -504,6 +504,10 @@ func (r *Runner) doReq(opIdx int, q *Req) Out {
 	}
 	body := bytes.TrimSpace(rr.Body)
 	switch {
+	case rr.Status == 200 && (strings.HasPrefix(out.CT, "text/html") || bytes.Contains(body[:min(len(body), 400)], []byte(`"swagger"`))):
+		out.Body = "doc" // the documentation page / the API description served by the framework
+	case len(body) == 0 && rr.Status == 200 && strings.EqualFold(q.Method, "HEAD"):
+		out.Body = "doc" // a HEAD answer has no body to look at; only the documentation resources answer 200 to HEAD
 	case len(body) == 0:
 		out.Body = "empty"
 	case !json.Valid(body):
@@ -677,3 +681,10 @@ func (r *Runner) doLeave(ua int) Out {
 
 // Conn gives the harness the live connection of an attempt (for probe messages).
 func (r *Runner) Conn(ua int) *websocket.Conn { return r.conns[ua] }
+
+func min(a, b int) int {
+	if a < b {
+		return a
+	}
+	return b
+}
